@@ -267,10 +267,36 @@ def hyp_settings(n: int):
     )
 
 
+class CaseTimeout(BaseException):
+    pass
+
+
+def _on_alarm(signum, frame):  # noqa: ARG001
+    raise CaseTimeout
+
+
+def run_with_timeout(mod: Any, case: Any, ctx: Ctx) -> Outcome:
+    """examine under a per-case wall-clock watchdog; expiry = inconclusive (skipped), never a violation."""
+    import signal
+
+    limit = getattr(mod, "CASE_TIMEOUT", 90.0)
+    if not limit:
+        return mod.examine(case, ctx)
+    old = signal.signal(signal.SIGALRM, _on_alarm)
+    signal.setitimer(signal.ITIMER_REAL, limit)
+    try:
+        return mod.examine(case, ctx)
+    except CaseTimeout:
+        return Outcome(skipped="case-timeout(inconclusive)")
+    finally:
+        signal.setitimer(signal.ITIMER_REAL, 0)
+        signal.signal(signal.SIGALRM, old)
+
+
 def safe_examine(mod: Any, case: Any, ctx: Ctx) -> Outcome:
     """Run examine; an exception escaping the check itself is a harness error (exit 2)."""
     try:
-        return mod.examine(case, ctx)
+        return run_with_timeout(mod, case, ctx)
     except HarnessError:
         raise
     except Exception as e:  # noqa: BLE001
@@ -319,7 +345,7 @@ def shrink_signature(mod: Any, ctx: Ctx, sig: str, allowance: float) -> tuple[An
         if time.time() > deadline:
             raise _Stop
         try:
-            out = mod.examine(case, ctx)
+            out = run_with_timeout(mod, case, ctx)
         except Exception:  # noqa: BLE001
             return False
         for s, d in out.verdicts:
